@@ -820,6 +820,21 @@ class C20(PropCheck):
             out = outcome_class(real)
             sec.add(sx.line('attach', recorder.sx(), enc(url)), recorder.log() + ' ' + out, meta={'url': url, 'spec': spec.json()},
                     nontrivial=not spec.delivers, tags=[spec.kind if spec.kind != 'resp' else ('delivers' if spec.delivers else 'read-fails')])
+        # the same Attachment object written twice (two write_pdf of one document): fetched again, same outcome (a0bb005)
+        for _ in range(run.n(80, 1000)):
+            rng = run.rng
+            url = f'http://files.test/t{rng.randrange(50)}.bin'
+            spec = R.random_spec(rng, names, fail=0.5)
+            recorder = R.Recorder({url: spec})
+            attachment = Attachment(url=url, url_fetcher=recorder)
+
+            def once():
+                pdf = pydyf.PDF()
+                result = write_pdf_attachment(pdf, attachment, False)
+                return 'none' if result is None else attachment_id(pdf, result, by_md5)
+            outs = [outcome_class(once), outcome_class(once)]
+            sec.add(sx.line('attach2', recorder.sx(), enc(url)), recorder.log() + ' ' + ' '.join(outs),
+                    meta={'url': url, 'spec': spec.json(), 'twice': True}, nontrivial=not spec.delivers, tags=['written-twice'])
         for _ in range(run.n(200, 3000)):
             rng = run.rng
             pool = [f'http://files.test/l{i}.bin' for i in range(rng.randrange(1, 5))]
@@ -910,6 +925,15 @@ class C20(PropCheck):
                             f'entries must be tried (implementation: {real}; expected: {model})')
                 if 'installed=none' not in real and 'installed=none' in model and ' ok' in real:
                     return f'a font was installed although no src entry delivers a usable font ({real})'
+            return None
+        if sec == 'attachments' and 'spec' in meta and meta.get('twice'):
+            first, second = impl.split(' ')[-2:]
+            for outcome in (first, second):
+                what = self.judge({**d, 'impl': 'x ' + outcome, 'meta': {k: v for k, v in meta.items() if k != 'twice'}})
+                if what:
+                    return what
+            if first != second:
+                return f'the same attachment written twice gives {first} then {second}'
             return None
         if sec == 'attachments' and 'spec' in meta:
             spec = meta['spec']
